@@ -852,7 +852,7 @@ func runC13(ctx *Ctx) *Result {
 		"then a fixed corpus and seeded random patterns of 3-10 elements (lists, ranges in both orders, bytes >= 0x80, cut-off patterns) with 12 words each derived from the pattern; " +
 		"non-trivial = the pattern contains one of * ? [ \\ (single patterns), every (p, q, word) and every Number() word; counted per distinct case"}
 	rng := NewRng(ctx.Seed)
-	patLen, pairLen, nrand, nrandPairs, nrandNum, mmnLen := 4, 2, 10000, 1500, 20000, 3
+	patLen, pairLen, nrand, nrandPairs, nrandNum, mmnLen := 4, 2, 30000, 5000, 50000, 3
 	wordLen := 3
 	if ctx.Tier == "thorough" {
 		patLen, pairLen, nrand, nrandPairs, nrandNum = 5, 3, 300000, 30000, 300000
@@ -896,7 +896,16 @@ func runC13(ctx *Ctx) *Result {
 	var pairs []c13Pair
 	for _, p := range small {
 		for _, q2 := range small {
-			pairs = append(pairs, c13Pair{p: p, q: q2, alpha: c13AlphaFor(p, q2), maxlen: 3, exact: true})
+			// a shortest common word has at most as many bytes as both patterns have non-star elements
+			// (with a star in both; otherwise as many as the star-free pattern has bytes)
+			np, nq := len(p)-strings.Count(p, "*"), len(q2)-strings.Count(q2, "*")
+			need := np + nq
+			if np == len(p) {
+				need = np
+			} else if nq == len(q2) {
+				need = nq
+			}
+			pairs = append(pairs, c13Pair{p: p, q: q2, alpha: c13AlphaFor(p, q2), maxlen: 3, exact: need <= 3})
 		}
 	}
 	c13CheckPairs(ctx, res, pairs, "exhaustive")
